@@ -184,6 +184,25 @@ pub fn tinv(seed: u64, dir: &str, nrec: usize) {
             if t == 1 { first = d.clone(); } else { emit(name, t, &first, &d); }
         }
     }
+    // listings whose single lines exceed a megabyte: six records of 250 000 bases (tens of thousands of runs each) written by
+    // several workers at once - a line is one write under the lock, however long it is
+    {
+        let big: Vec<Vec<u8>> = (0..6).map(|_| (0..250_000).map(|_| *rng.pick(b"ACGT")).collect()).collect();
+        let binp = format!("{}/tinv_big.fa", dir);
+        write_fasta(&binp, &big);
+        for (name, m2s) in [("min-s2m long lines", false), ("min-m2s long lines", true)] {
+            let mut first = String::new();
+            for &t in &[1usize, 3, 6, 16] {
+                let _ = std::fs::remove_file(&out);
+                let r = std::panic::catch_unwind(|| {
+                    if m2s { misc::minimisers::bin_sequences(8, 7, &binp, &out, t) } else { misc::minimisers::seq_to_min(8, 7, &binp, &out, t) }
+                });
+                let d = if r.is_ok() { sorted_lines_digest(&std::fs::read(&out).unwrap_or_default(), m2s) } else { "failed".into() };
+                if t == 1 { first = d.clone(); } else { emit(name, t, &first, &d); }
+            }
+        }
+        let _ = std::fs::remove_file(&binp);
+    }
     // counter: several chunks, deleting merge
     {
         let mut first = String::new();
